@@ -398,6 +398,14 @@ def run_cases(binpath, rng, base, n):
         code = rng.choice([0, 0, 1, 2, 3, 127, 255])
         algs = rng.choice([None, ["sha256", "sha512"]])
         cmd = ["sh", "-c", f"{script}; exit {code}"]
+        if i % 4 == 3:
+            # a command given as a plain argument vector whose arguments happen to name things that exist (relative to the
+            # working directory): it is run with exactly these arguments
+            here = sorted(os.listdir(root))
+            args = rng.sample(here, min(len(here), 2)) + rng.sample([".", "./", "..", "./" + (here[0] if here else "x"), "no-such-file", "-n", ""], 3)
+            rng.shuffle(args)
+            cmd = ["printf", "%s|"] + args
+            name, so, se, code = "argv_naming_existing_paths", "".join(a + "|" for a in args), "", 0
         c = {"op": "run", "cwd": root, "name": f"step{i}", "run_dir": rng.choice([None, "."]), "materials": ["."], "products": ["."],
              "cmd": cmd, "algs": algs, "lstrip": None, "key": rng.choice([None, "ed0"]),
              "meta": {"command": name, "code": code, "stdout": so, "stderr": se}}
